@@ -229,6 +229,11 @@ class PostgreSQLQueryBuilder(QueryBuilder):
             querystring = super().get_sql(ctx)
         if self._returns and querystring:
             # (an incomplete statement renders as the empty string: nothing to append RETURNING to)
-            returning_ctx = ctx.copy(with_namespace=self._update_table and self.from_)
+            # INSERT / DELETE: RETURNING is qualified when the rest of the statement is (more than one table in scope)
+            returning_ctx = ctx.copy(
+                with_namespace=(self._update_table and self.from_)
+                if self._update_table
+                else ctx.with_namespace
+            )
             querystring += self._returning_sql(returning_ctx)
         return querystring
